@@ -14,18 +14,28 @@
 (***************************************************************************)
 EXTENDS Integers, Sequences, FiniteSets, TLC
 
-CONSTANTS Inst,       \* set of instance ids
-          Inputs,     \* set of input identifiers
-          MaxParses   \* bound on parses per instance
+CONSTANTS
+  \* @type: Set(Int);
+  Inst,       \* set of instance ids
+  \* @type: Set(Str);
+  Inputs,     \* set of input identifiers
+  \* @type: Int;
+  MaxParses   \* bound on parses per instance
 
+\* @type: Str => <<Str, Str>>;
 Result(w) == <<"result-of", w>>      \* uninterpreted: stands for verdict, tokens, tree, actions, error of input w
+\* @type: Str => <<Str, Str>>;
 Continued(w) == <<"continued", w>>   \* ... of Parse called once more without Reset: it goes on at the position the
                                      \* first call stopped at, with the tokens, furthest token and memo table it left
 
-VARIABLES inst     \* [Inst -> [pc, buf, memoOf (input whose memo entries / tokens / maxToken the closure holds), out, parses]]
-vars == <<inst>>
+VARIABLES
+  \* @type: Int -> { pc: Str, buf: Str, holds: Str, out: <<Str, Str>>, parses: Int };
+  inst     \* [Inst -> [pc, buf, memoOf (input whose memo entries / tokens / maxToken the closure holds), out, parses]]
+vars == inst
 
-Fresh == [pc |-> "new", buf |-> "none", holds |-> "none", out |-> "none", parses |-> 0]
+\* @type: <<Str, Str>>;
+NoResult == <<"none", "none">>
+Fresh == [pc |-> "new", buf |-> "none", holds |-> "none", out |-> NoResult, parses |-> 0]
 Init == inst = [i \in Inst |-> Fresh]
 
 DoInit(i) == inst[i].pc = "new" /\ inst' = [inst EXCEPT ![i].pc = "ready"]
@@ -51,4 +61,23 @@ Confinement == [][\A i \in Inst : (inst'[i] # inst[i]) => \A j \in Inst \ {i} : 
 FreshEquivalence == \A i \in Inst : inst[i].pc \in {"parsed", "executed", "observed"} => inst[i].out \in {Result(inst[i].buf), Continued(inst[i].buf)}
 \* nothing of an earlier input is held when a parse starts
 ResetClean == \A i \in Inst : inst[i].pc = "reset" => inst[i].holds = "none"
+
+(* ---------- unbounded safety (Apalache): the invariants are inductive ---------------------- *)
+\* apalache-mc check --cinit=ConstInit --init=IndInit --inv=IndInv --length=1 PegRuntime.tla   (step)
+\* apalache-mc check --cinit=ConstInit --init=Init --inv=IndInv --length=0 PegRuntime.tla      (base)
+\* i.e. from ANY state that satisfies the invariant, not only the reachable ones (three instances, three inputs)
+ConstInit == Inst = {1, 2, 3} /\ Inputs = {"u", "v", "w"} /\ MaxParses \in 0..4
+PCs == {"new", "ready", "buffered", "reset", "parsed", "executed", "observed"}
+TypeOK == inst \in [Inst -> [pc : PCs, buf : Inputs \cup {"none"}, holds : Inputs \cup {"none"},
+                             out : {NoResult} \cup {Result(w) : w \in Inputs} \cup {Continued(w) : w \in Inputs},
+                             parses : 0..4]]
+          /\ \A i \in Inst : inst[i].parses <= MaxParses
+\* strengthening: a parse that is being prepared is still within the budget
+ParseBudget == \A i \in Inst : inst[i].pc \in {"buffered", "reset"} => inst[i].parses < MaxParses
+\* ... and has a buffer
+BufferSet == \A i \in Inst : inst[i].pc \notin {"new", "ready"} => inst[i].buf \in Inputs
+IndInv == TypeOK /\ FreshEquivalence /\ ResetClean /\ ParseBudget /\ BufferSet
+IndInit == IndInv
+\* the action property as a step invariant for Apalache (--inv with primes is an action invariant)
+ConfinementStep == \A i \in Inst : (inst'[i] # inst[i]) => \A j \in Inst \ {i} : inst'[j] = inst[j]
 =============================================================================
